@@ -3,10 +3,8 @@
    non-integral / negative / inf / nan indices) and every heap. *)
 From Coq Require Import Lia ZifyBool SpecFloat.
 From BS Require Import Model.Base Model.Num Model.LibVal Gen.ArgSpecs Model.LibSeq Proofs.BaseFacts Proofs.C15 Proofs.C15spec
-  Proofs.C15hist Proofs.C15spec2 Proofs.C15str.
+  Proofs.C15hist Proofs.C15spec2 Proofs.C15str Proofs.C15tac.
 Local Open Scope Z_scope.
-
-Ltac go name k := lib_open name k; crunch.
 
 (* ---- one string argument *)
 Lemma step_stringLength : refines (U "stringLength") sp_stringLength.
